@@ -1570,7 +1570,9 @@ class CParser:
             case "PPPRAGMA" | "_PRAGMA":
                 return self._parse_pppragma_directive()
             case "_STATIC_ASSERT":
-                return self._parse_static_assert()
+                # _parse_static_assert returns a one-element list (the form
+                # declarations come in); a statement slot needs the node.
+                return self._parse_static_assert()[0]
             case _:
                 return self._parse_expression_statement()
 
